@@ -10,6 +10,8 @@ META = dict(
 
 
 def harnesses(tier):
+    from contracts.coupling import coupling_harnesses
+    hs_c = coupling_harnesses({"C02"}, tier, modes=("if",))
     from contracts.modules import transform_harness
     from contracts.elementwise import SPECS, FUNCTIONAL
-    return [transform_harness(SPECS[n], m, {"C02"}) for n in FUNCTIONAL for m in ("if", "fi")]
+    return hs_c + [transform_harness(SPECS[n], m, {"C02"}) for n in FUNCTIONAL for m in ("if", "fi")]
